@@ -262,7 +262,12 @@ func (g *gen) islice(depth int) *V {
 				m.Vals = append(m.Vals, g.islice(depth-1))
 			}
 			return m
-		case 7, 8:
+		case 7:
+			return &V{K: "ptr", Elem: g.strct(0)}
+		case 8:
+			if g.r.Bool() {
+				return g.strct(0) // a struct held BY VALUE by the interface
+			}
 			return &V{K: "ptr", Elem: g.strct(0)}
 		default:
 			if g.r.Bool() {
@@ -441,14 +446,15 @@ func (g *gen) tmap(depth int) *V {
 	nt := g.r.Intn(4)
 	for i := 0; i < nt; i++ {
 		k := fmt.Sprintf("k%d", 1+g.r.Intn(5))
-		// tags name keys holding strings (or ints), or absent keys
+		// tags name keys holding strings (or ints), or absent keys - and, one time in three, whatever the key holds: a nested map,
+		// a pointer to a struct, a mixed []interface{} (a tag on a container classifies the container as a whole)
 		ok := true
 		for j, kk := range v.Keys {
 			if kk == k && v.Vals[j].K != "str" && v.Vals[j].K != "int" && v.Vals[j].K != "bytes" {
 				ok = false
 			}
 		}
-		if !ok {
+		if !ok && !g.r.Chance(1, 3) {
 			continue
 		}
 		v.Tags = append(v.Tags, g.ptag("/"+k))
@@ -487,6 +493,26 @@ func (g *gen) tmap(depth int) *V {
 	if g.r.Chance(1, 40) {
 		v.Tags = append(v.Tags, g.ptag("k1")) // does not parse
 	}
+	// a tag that names a CONTAINER (nested map, slice, pointer to struct) classifies it as a whole; together with deeper tags that
+	// go through the same key the outcome depends on the order the tags are applied in (the first replaces the map by a string, the
+	// deeper pointer then finds no map): the model keeps the two apart, the generator does too
+	var kept []PTag
+	for _, t := range v.Tags {
+		drop := false
+		for j, kk := range v.Keys {
+			if t.Ptr == "/"+kk && v.Vals[j].K != "str" && v.Vals[j].K != "int" && v.Vals[j].K != "bytes" {
+				for _, u := range v.Tags {
+					if len(u.Ptr) > len(t.Ptr) && u.Ptr[:len(t.Ptr)+1] == t.Ptr+"/" {
+						drop = true
+					}
+				}
+			}
+		}
+		if !drop {
+			kept = append(kept, t)
+		}
+	}
+	v.Tags = kept
 	return v
 }
 
@@ -734,7 +760,7 @@ func (g *gen) payload(depth int) (string, *V) {
 			}
 			return "val", &V{K: "str", C: g.can()}
 		default:
-			return "rotate", &V{K: []string{"all", "salt", "info", "wrapper", "empty"}[g.r.Intn(5)]}
+			return "rotate", &V{K: []string{"all", "salt", "info", "wrapper", "empty", "both", "bothv", "botht"}[g.r.Intn(8)]}
 		}
 	case 23:
 		t := g.ptrTaggable()
